@@ -122,4 +122,19 @@ inline unsigned long walk(const std::vector<std::vector<unsigned long>> &adj) {
     }
     return loops;
 }
+// R07v: the winner of a scan is remembered by address, the pointee is a loop-body local
+inline std::vector<int> dangling_winner(const std::vector<std::vector<int>> &rows) {
+    const std::vector<int> *winner = nullptr;
+    std::vector<int> best;
+    for (std::size_t i = 0; i < rows.size(); ++i) {
+        std::vector<int> res = rows[i];
+        if (winner == nullptr || res.size() < winner->size()) {
+            winner = &res;
+        }
+    }
+    if (winner != nullptr) {
+        best = *winner;                                  // R07v: `res` died with its iteration
+    }
+    return best;
+}
 }
